@@ -55,6 +55,8 @@ def run(R, tier, seed, driver_ok):
         init_kind = ['identity', 'covariance', 'random', 'array'][rep % 4]
         B = rng.randn(d, d)
         init = B.dot(B.T) + 0.3 * np.eye(d) if init_kind == 'array' else init_kind
+        if init_kind == 'array' and rep % 8 >= 4:
+            init = np.asfortranarray(init)                 # the same matrix, column-major
         max_proj = 10000
         if special:
             max_proj = int(rng.choice([1, 2, 3, 4, 6]))
@@ -73,6 +75,8 @@ def run(R, tier, seed, driver_ok):
                 Wm = Sp.T.dot(Sp)
                 if np.linalg.eigvalsh(Wm).min() > 1e-6 * np.abs(Wm).max():
                     init_kind, init = 'scatter', Wm * float(rng.uniform(0.5, 2.0))
+                    if rng.rand() < 0.5:
+                        init = np.asfortranarray(init)
             else:
                 init_kind, init = 'identity', 'identity'
         diagonal = rep % 3 == 2 and not special
